@@ -58,4 +58,26 @@ Definition no_type_only_change (k : kind) (docs : list doc) : Prop :=
 Definition docs_ok (k : kind) (docs : list doc) : Prop :=
   Forall doc_wf docs /\ distinguishable k (fun d => In d docs) /\ no_type_only_change k docs.
 
+(* C08, no mixing: a base collector (one chunk) whose reference document is r
+   holds only rows of r's metric count, and its last sample has r's metric types *)
+Definition bc_unmixed (b : bcoll) : Prop :=
+  match bc_ref b with
+  | None => True
+  | Some r => map fst (bc_last b) = map fst (flatten_doc r) /\
+              Forall (fun row : list Z => length row = length (flatten_doc r)) (bc_rows b)
+  end.
+
+(* every chunk under construction inside a collector *)
+Definition bcolls_of (c : coll) : list bcoll :=
+  match c with
+  | CBase b => [b]
+  | CBatch b => ba_chunks b
+  | CDyn x => flat_map ba_chunks (dy_chunks x)
+  | CStream s => match sc_inner s with IB b => [b] | IU _ => [] end
+  | CSDyn s => match sc_inner (sd_s s) with IB b => [b] | IU _ => [] end
+  | CUnc _ => []
+  end.
+
+Definition unmixed (c : coll) : Prop := Forall bc_unmixed (bcolls_of c).
+
 End Hyps.
